@@ -683,6 +683,12 @@ pub fn packet_oracle(prop: &str, tier: &str, seed: u64, ops: Option<&[String]>) 
             }
         }
     }
+    if prop == "C11" && ops.is_none() {
+        c11_probes(&mut rep);
+        if thorough {
+            c11_probe_oversize(&mut rep);
+        }
+    }
     let _ = both::<fn(&mut Report), fn(&mut Report)>;
     rep.sample(format!("enc v3 {}", crate::v3text::show(&crate::pgen::gen_v3(&mut Rng::new(seed), 2, crate::pgen::Sizes { big: false }))));
     rep.sample(format!("enc v5 {}", crate::v5text::show(&crate::pgen::gen_v5(&mut Rng::new(seed), 0, crate::pgen::Sizes { big: false }, 1, 0))));
@@ -824,4 +830,141 @@ pub fn c13(tier: &str, seed: u64, ops: Option<&[String]>) -> Report {
     rep.distinct = rep.cases;
     rep.sample("dec v3 <encoding of a v5 CONNECT> -> err UnexpectedProtocol(V500)".into());
     rep
+}
+
+// ---------------------------------------------------------------- C20
+
+pub fn c20(tier: &str, seed: u64, ops: Option<&[String]>) -> Report {
+    let mut rep = Report::new("C20", "malformation catalogue x generated valid packets of both families x every position where each malformation applies (each field located in the encoding by re-encoding with that field changed and diffing): illegal header flags, PUBLISH QoS 3, reserved types, 5-byte remaining length, zero pid, return/reason code out of table, CONNACK flags, reserved connect flag, will QoS without will / QoS 3, wrong protocol name/level, cross-family level, non-UTF-8 in every text/topic/filter field, wildcard in topic names, invalid filters, SUBSCRIBE QoS 3 / option reserved bits / retain handling 3, empty subscription list, v5 unknown / disallowed / duplicated property, boolean property > 1, inner length past the frame, remaining length too long; expected error variants written from the doc-comments of Error/ErrorV5");
+    crate::catalogue::run::<V3>(&mut rep, tier, seed, ops);
+    crate::catalogue::run::<V5>(&mut rep, tier, seed.wrapping_add(7), ops);
+    rep.distinct = rep.cases;
+    rep.sample("zero-pid: 40020000 -> ZeroPid on blocking, async, poll".into());
+    rep.sample("non-utf8-string in CONNECT client id -> InvalidString".into());
+    rep
+}
+
+/// C11: lenient framing probes (the lenient front-ends never compare a CONNECT body with the
+/// fixed header's remaining length — `// FIXME: check remaining length` in v5/connect.rs).
+fn c11_probes(rep: &mut Report) {
+    use mqtt_proto::{v3, v5};
+    // fixed header claims remaining length 0 (one length byte) in front of a 132-byte CONNECT body
+    for fam in ["v3", "v5"] {
+        rep.cases += 1;
+        let mut body: Vec<u8> = Vec::new();
+        body.extend_from_slice(&[0, 4, b'M', b'Q', b'T', b'T', if fam == "v3" { 4 } else { 5 }, 0x02, 0, 10]);
+        if fam == "v5" {
+            body.push(0);
+        }
+        body.extend_from_slice(&[0, 120]);
+        body.extend(std::iter::repeat(b'a').take(120));
+        let mut frame = vec![0x10, 0x00];
+        frame.extend_from_slice(&body);
+        let (accepted, consumed, relen) = if fam == "v3" {
+            let mut rd: &[u8] = &frame;
+            match futures_lite::future::block_on(v3::Packet::decode_async(&mut rd)) {
+                Ok(p) => (true, frame.len() - rd.len(), p.encode().map(|v| v.as_ref().len()).ok()),
+                Err(_) => (false, 0, None),
+            }
+        } else {
+            let mut rd: &[u8] = &frame;
+            match futures_lite::future::block_on(v5::Packet::decode_async(&mut rd)) {
+                Ok(p) => (true, frame.len() - rd.len(), p.encode().map(|v| v.as_ref().len()).ok()),
+                Err(_) => (false, 0, None),
+            }
+        };
+        if accepted {
+            match relen {
+                Some(l) if l <= consumed => {}
+                other => rep.fail("lenient-understated-remaining-length", format!("dec {} {}", fam, hex(&frame)), format!("lenient decoder accepts a CONNECT whose fixed header understates the remaining length with a shorter length field: consumed {} bytes, re-encoding is {:?} bytes", consumed, other)),
+            }
+        }
+    }
+}
+
+// ---------------------------------------------------------------- C04 (implementation vs the standard, probes)
+
+pub fn c04(tier: &str, seed: u64, ops: Option<&[String]>) -> Report {
+    use crate::sio::Term;
+    let mut rep = Report::new("C04", "the implementation's strict decoder against the independent specification decoder is the `spec` correspondence stream (valid encodings, trailing bytes, mutations, all <=2-byte strings, short bodies, hand-picked corpus); this oracle adds frames the generators cannot reach: well-formed frames that the MQTT standard allows and the codec cannot represent (known findings), and grammar-generated frames with 1..3 injected violations which must all be rejected by the strict decoder");
+    let _ = (tier, ops);
+    // K1: v5 PUBLISH with two Subscription Identifiers (MQTT 5.0 §3.3.2.3.8 allows several)
+    rep.cases += 1;
+    let frame = crate::pkt::frame(0x30, &[0, 1, b'a', 4, 0x0b, 1, 0x0b, 2, b'h']);
+    match V5::poll(&frame, vec![], Term::Eof).res {
+        Ok(_) => rep.count("multi-subid-accepted"),
+        Err(e) => rep.fail("publish-multiple-subscription-identifiers", format!("poll v5 {} - eof", hex(&frame)), format!("a well-formed v5 PUBLISH carrying two Subscription Identifiers is refused with {}", e.text)),
+    }
+    // injected violations on catalogue frames: the strict decoder must reject every one
+    let mut rng = Rng::new(seed ^ 0x404);
+    let n = if tier == "thorough" { 8000 } else { 1000 };
+    for i in 0..n {
+        let p5 = V5::gen(&mut rng, i, crate::pgen::Sizes { big: false });
+        for m in crate::catalogue::malformations::<V5>(&p5, &mut rng) {
+            rep.cases += 1;
+            if V5::poll(&m.frame, vec![], Term::Eof).res.is_ok() {
+                rep.fail("malformed-accepted", format!("poll v5 {} - eof", hex(&m.frame)), format!("strict decoder accepts a frame with an injected violation ({})", m.kind));
+            }
+        }
+        let p3 = V3::gen(&mut rng, i, crate::pgen::Sizes { big: false });
+        for m in crate::catalogue::malformations::<V3>(&p3, &mut rng) {
+            rep.cases += 1;
+            if V3::poll(&m.frame, vec![], Term::Eof).res.is_ok() {
+                rep.fail("malformed-accepted", format!("poll v3 {} - eof", hex(&m.frame)), format!("strict decoder accepts a frame with an injected violation ({})", m.kind));
+            }
+        }
+    }
+    rep.distinct = rep.cases;
+    rep.sample("poll v5 3009000161040b010b0268 (two Subscription Identifiers) -> DuplicatedProperty(11): known finding K1".into());
+    rep
+}
+
+/// K2 (thorough tier only: needs a 270 MB input): a v5 CONNECT whose property section makes the
+/// body exceed 268,435,455 bytes is accepted by the lenient decoder and cannot be re-encoded.
+fn c11_probe_oversize(rep: &mut Report) {
+    use mqtt_proto::v5;
+    rep.cases += 1;
+    let big = vec![b'a'; 65535];
+    let n = 2050usize; // 2050 x (1 + 2 + 65535 + 2 + 65535) = 268,713,750 > 268,435,455 ... too large for a property length
+    let _ = n;
+    // property length is itself limited to 268,435,455: fill it up, the other CONNECT fields push the body over the limit
+    let per = 1 + 2 + 65535 + 2 + 65535;
+    let count = 268_435_455 / per; // 2047 full pairs
+    let mut props: Vec<u8> = Vec::with_capacity(count * per + 70000);
+    for _ in 0..count {
+        props.push(0x26);
+        props.extend_from_slice(&[0xff, 0xff]);
+        props.extend_from_slice(&big);
+        props.extend_from_slice(&[0xff, 0xff]);
+        props.extend_from_slice(&big);
+    }
+    // one more user property sized to reach exactly the maximum property length
+    let left = 268_435_455 - props.len();
+    if left >= 5 {
+        let l = left - 5;
+        let a = l.min(65535);
+        let b = l - a;
+        props.push(0x26);
+        props.extend_from_slice(&(a as u16).to_be_bytes());
+        props.extend(std::iter::repeat(b'a').take(a));
+        props.extend_from_slice(&(b as u16).to_be_bytes());
+        props.extend(std::iter::repeat(b'a').take(b));
+    }
+    let mut frame: Vec<u8> = vec![0x10, 0x00, 0, 4, b'M', b'Q', b'T', b'T', 5, 0x02, 0, 10];
+    frame.extend_from_slice(&[0xff, 0xff, 0xff, 0x7f]);
+    let plen = props.len();
+    frame.extend_from_slice(&props);
+    drop(props);
+    frame.extend_from_slice(&[0, 3, b'c', b'i', b'd']);
+    let mut rd: &[u8] = &frame;
+    match futures_lite::future::block_on(v5::Packet::decode_async(&mut rd)) {
+        Ok(p) => {
+            let consumed = frame.len() - rd.len();
+            match p.encode() {
+                Ok(v) if v.as_ref().len() <= consumed => {}
+                other => rep.fail("lenient-oversize-body", format!("v5 CONNECT behind fixed header 10 00 with a {}-byte property section ({} bytes consumed)", plen, consumed), format!("accepted by the lenient decoder but re-encoding gives {:?}", other.map(|v| v.as_ref().len()))),
+            }
+        }
+        Err(e) => rep.notes.push(format!("oversize probe: decoder refused ({:?})", e)),
+    }
 }
